@@ -515,19 +515,24 @@ class World:
         elif name in ("Canonical", "HamiltonianCanonical"):
             mc = cls(self.atoms, temperature=p["temperature"], **kw)
         elif name == "Isobaric":
-            mc = cls(self.atoms, temperature=p["temperature"], pressure=p.get("pressure", 0.0), **kw)
+            if "pressure" in p:
+                kw["pressure"] = p["pressure"]
+            mc = cls(self.atoms, temperature=p["temperature"], **kw)
         elif name == "Isotension":
             if p.get("external_stress") is not None:
                 kw["external_stress"] = np.array(p["external_stress"], dtype=float)
             # (not configured: the argument is left out altogether, the documented default applies)
-            mc = cls(self.atoms, temperature=p["temperature"], pressure=p.get("pressure", 0.0), **kw)
+            if "pressure" in p:
+                kw["pressure"] = p["pressure"]
+            mc = cls(self.atoms, temperature=p["temperature"], **kw)
         elif name == "GrandCanonical":
             ex = build_atoms(sc["exchange"])
             self.template = ex
             self.template_snapshot = self._atoms_arrays(ex)
-            mc = cls(self.atoms, exchange_atoms=ex, temperature=p["temperature"],
-                     chemical_potential=p.get("chemical_potential", 0.0),
-                     number_of_exchange_particles=p.get("number_of_exchange_particles", 0), **kw)
+            for key in ("chemical_potential", "number_of_exchange_particles"):
+                if key in p:
+                    kw[key] = p[key]
+            mc = cls(self.atoms, exchange_atoms=ex, temperature=p["temperature"], **kw)
             if "accessible_volume" in p:
                 mc.accessible_volume = p["accessible_volume"]
         else:
@@ -631,7 +636,18 @@ class World:
         return {k: (str(v.dtype), v.shape, v.tobytes()) for k, v in sorted(atoms.arrays.items())}
 
     def label_moves(self):
-        return [(p, m) for p, m in self.env.leaves if hasattr(m, "labels")]
+        """(path, move) of every label-bearing elementary move: the ones the user built, plus any the package put
+        into the table itself (path '<entry>.live<k>')."""
+        out = [(p, m) for p, m in self.env.leaves if hasattr(m, "labels")]
+        known = {id(m) for _, m in out}
+        mc = getattr(self, "mc", None)
+        if mc is not None and hasattr(mc, "moves"):
+            for name, st in mc.moves.items():
+                for k, lf in enumerate(self.leaves_of(st.move)):
+                    if id(lf) not in known and hasattr(lf, "labels"):
+                        known.add(id(lf))
+                        out.append((f"{name}.live{k}", lf))
+        return out
 
     def snapshot(self) -> dict:
         atoms = self.atoms
@@ -706,6 +722,13 @@ class World:
                 else:
                     pos[[r for r in rows if r < len(pos)]] += sh
                 self.atoms.positions = pos
+            if ed.get("relabel"):
+                # the user reconfigures the elementary moves HE built (the objects he holds) after composing them
+                rl = ed["relabel"]
+                for path, m in self.env.leaves:
+                    if (path == rl["entry"] or path.startswith(rl["entry"] + ".")) and hasattr(m, "set_labels"):
+                        m.set_labels(np.array(rl["labels"], dtype=int))
+                        self.result.count("fault.user_relabels_between_runs")
             if ed.get("fresh_calculator"):
                 # the user attaches a fresh calculator of the same kind (a new instance that never evaluated anything)
                 self.calc = calcs.make_calc(self.calc_spec)
@@ -1110,6 +1133,39 @@ class FBWorld:
 class FBMonitor(Monitor):
     def before_step(self, w, pre): ...
     def on_fbstep(self, w, pre, post): ...
+
+
+def scribble(w) -> int:
+    """After a simulation has finished, its user edits in place every array it can reach through the public surface
+    (settings, move labels, operation masks, exchange atoms).  A later simulation built with the same seed and
+    configuration in the same process must not notice: nothing may be shared between simulations behind the user's
+    back (default arguments, module-level arrays)."""
+    n = 0
+    mc = w.mc
+    for name in ("external_stress", "delta", "masses_scaling_power", "shaped_masses"):
+        v = getattr(mc, name, None)
+        if isinstance(v, np.ndarray) and v.dtype.kind == "f" and v.flags.writeable:
+            v += 0.37
+            n += 1
+    ex = getattr(mc, "exchange_atoms", None)
+    if ex is not None and len(ex):
+        ex.positions += 0.37
+        n += 1
+    if hasattr(mc, "moves"):
+        for st in mc.moves.values():
+            for lf in World.leaves_of(st.move):
+                lab = getattr(lf, "labels", None)
+                if isinstance(lab, np.ndarray) and lab.flags.writeable:
+                    lab += 3
+                    n += 1
+                op = getattr(lf, "operation", None)
+                for o in [op] + list(getattr(op, "operations", []) or []):
+                    m = getattr(o, "mask", None)
+                    if isinstance(m, np.ndarray) and m.flags.writeable:
+                        m[...] = ~m
+                        n += 1
+    return n
+
 
 
 def make_world(scenario, monitors=(), opts=None, disk=None):
